@@ -40,6 +40,8 @@ pub struct Part {
 struct Ctx<'a, C: CT> {
     part: &'a Part,
     cands: Vec<Cand<C>>,
+    /// Alphabet-independent hash of every candidate (for counting distinct attempts over parts).
+    cand_hash: Vec<u64>,
 }
 
 /// The state at a set of operations, as the real code reports it.
@@ -294,6 +296,8 @@ fn attempt_all<C: CT>(cx: &Ctx<C>, node: &Node<C>, acc: &mut Accu, want_children
     let (_, y_full, _) = node.rep(full);
     acc.count(&format!("histories_len_{}", h.n()), 1);
     acc.states.insert(h64(&(C::NAME, h.content_hash())));
+    // alphabet-independent identity of the accepted history (operation texts)
+    let hist_hash = h64(&h.show());
     let before = observe(y_full, groups);
     let expand_children = want_children && h.n() < cx.part.max_len;
     let mut children = vec![];
@@ -330,11 +334,8 @@ fn attempt_all<C: CT>(cx: &Ctx<C>, node: &Node<C>, acc: &mut Accu, want_children
                 )
             };
             let replay = || json!({"conditions": C::NAME, "history": h.to_json(), "attempt": show_op(op)});
-            if let Err((fam, why)) = expected {
-                if fam == "unauthorised" {
-                    acc.count("nontrivial", 1);
-                }
-                let _ = why;
+            if let Err(("unauthorised", _)) = expected {
+                acc.nontrivial.insert(h64(&(C::NAME, hist_hash, dmask, cx.cand_hash[ix])));
             }
             let result = process(y_full.clone(), op);
             // "either": whatever the code decides is what the reference expects
@@ -483,12 +484,14 @@ fn attempt_all<C: CT>(cx: &Ctx<C>, node: &Node<C>, acc: &mut Accu, want_children
     children
 }
 
-fn run_part<C: CT>(rep: &mut Report, part: &Part) {
+fn run_part<C: CT>(rep: &mut Report, part: &Part, sink: &mut std::collections::BTreeMap<String, Viol>) {
     let t0 = std::time::Instant::now();
     let c0 = cpu_s();
+    let cands = part.alpha.cands::<C>();
     let cx = Ctx::<C> {
         part,
-        cands: part.alpha.cands::<C>(),
+        cand_hash: cands.iter().map(|c| h64(&format!("{:?}/{:?}/{:?}", c.author, c.group, c.action))).collect(),
+        cands,
     };
     let groups = &part.alpha.groups;
     let seed_len = part.max_len.min(2);
@@ -528,10 +531,8 @@ fn run_part<C: CT>(rep: &mut Report, part: &Part) {
     }
     let mut total = par_run(rep.args.threads, &items, |node, acc| visit(&cx, node, acc));
     total.merge(seq);
-    let nontrivial = total.counters.get("nontrivial").copied().unwrap_or(0);
-    rep.nontrivial_count(nontrivial);
     let name = format!("{}/{}", part.name, C::NAME);
-    let mut v = total.flush(rep, &name);
+    let mut v = total.flush(rep, &name, sink);
     if let Some(o) = v.as_object_mut() {
         o.insert("max_accepted_history_len".into(), json!(part.max_len));
         o.insert("max_concurrent_heads".into(), json!(part.max_heads));
@@ -621,11 +622,12 @@ pub fn parts(thorough: bool, conditioned: bool) -> Vec<Part> {
 pub fn run(mut rep: Report) -> i32 {
     let thorough = rep.thorough();
     rep.rule = "one evaluation = one attempted operation (author x group x action x declared dependency set) on a replica holding one accepted history; the real process() verdict is compared with the reference authoriser evaluated on the state at the declared dependencies; non-trivial = attempts the reference classifies as unauthorised (author not an active manager of an existing group)".into();
+    let mut sink = std::collections::BTreeMap::new();
     let ps = parts(thorough, false);
     for (i, p) in ps.iter().enumerate() {
         if part_selected(p.name) {
             set_deadline(thorough, 1.0, (ps.len() - i) as f64);
-            run_part::<()>(&mut rep, p);
+            run_part::<()>(&mut rep, p, &mut sink);
         }
     }
     // A run with a conditioned access type is deliberately not part of this check: with conditions
@@ -638,6 +640,7 @@ pub fn run(mut rep: Report) -> i32 {
     rep.assume("operations are only offered to replicas that already hold their dependencies (causal delivery is a documented precondition of process())");
     rep.assume("process() takes the replica by value, so 'a rejected operation leaves the replica unchanged' can only be observed on the caller's copy; that copy is re-queried after all attempts");
     rep.assume("accepted histories start with `create G` by a (symmetry); attempts on the empty replica are enumerated separately; the search does not continue below an operation that was wrongly accepted");
+    emit_violations(&mut rep, sink);
     report_cap(&mut rep);
     rep.finish()
 }
